@@ -112,6 +112,10 @@ pub fn options_for(req: &CompileReq) -> Options {
 /// Compile; returns the result record and the font bytes if it succeeded.
 pub fn compile(req: &CompileReq) -> (CompileRes, Option<Vec<u8>>) {
     let t0 = std::time::Instant::now();
+    if std::env::var_os("SOURCE_DATE_EPOCH").is_none() {
+        // head.created/modified come from the clock otherwise
+        unsafe { std::env::set_var("SOURCE_DATE_EPOCH", "1700000000") };
+    }
     if req.threads > 0 {
         // rayon reads this each time a pool with default size is built
         unsafe { std::env::set_var("RAYON_NUM_THREADS", req.threads.to_string()) };
